@@ -109,7 +109,9 @@ func registerMaps() {
 	reg("FilterOutByKeys", "m,t", 1, func(c *cx) []Val { return r1(VM(collection.FilterOutByKeys(c.M(0), c.S(1)...))) },
 		filterLaw(func(a []Val) func(k, v int64) bool { return func(k, v int64) bool { return member(a[1].L, k, eq0) } }))
 	reg("FilterOutByValues", "m,t,k", 1, func(c *cx) []Val { return r1(VM(collection.FilterOutByValues(c.M(0), c.S(1), cmpk(c.Z(2))))) },
-		filterLaw(func(a []Val) func(k, v int64) bool { return func(k, v int64) bool { return member(a[1].L, v, cmpk(a[2].Z)) } }))
+		filterLaw(func(a []Val) func(k, v int64) bool {
+			return func(k, v int64) bool { return member(a[1].L, v, cmpk(a[2].Z)) }
+		}))
 	reg("FilterOutByMap", "m,p", 1, func(c *cx) []Val {
 		p := predk(c.Z(1), c.Z(2))
 		return r1(VM(collection.FilterOutByMap(c.M(0), func(k, v int64) bool { return p(k + v) })))
@@ -154,11 +156,11 @@ func registerMaps() {
 			return nil
 		}
 	}
-	reg("ConvertMapKeysToBatches", "m,n", 2, func(c *cx) []Val {
+	reg("ConvertMapKeysToBatches", "m,nb", 2, func(c *cx) []Val {
 		b := collection.ConvertMapKeysToBatches(c.M(0), c.I(1))
 		return []Val{VL(sortedCopy(concat(b))), VL(batchLens(b))}
 	}, batchLaw(keysOf))
-	reg("ConvertMapValuesToBatches", "m,n", 2, func(c *cx) []Val {
+	reg("ConvertMapValuesToBatches", "m,nb", 2, func(c *cx) []Val {
 		b := collection.ConvertMapValuesToBatches(c.M(0), c.I(1))
 		return []Val{VL(sortedCopy(concat(b))), VL(batchLens(b))}
 	}, batchLaw(valsOf))
@@ -287,15 +289,21 @@ func registerMaps() {
 	reg("KeyInMap", "m,v", 1, func(c *cx) []Val { return r1(VB(collection.KeyInMap(c.M(0), c.Z(1)))) },
 		func(a, res, aft []Val) []hit { return expectB(res[0], hasKey(a[0].amap(), a[1].Z), "wrong-verdict") })
 	reg("ValueInMap", "m,v,k", 1, func(c *cx) []Val { return r1(VB(collection.ValueInMap(c.M(0), c.Z(1), cmpk(c.Z(2))))) },
-		func(a, res, aft []Val) []hit { return expectB(res[0], hasVal(a[0].amap(), a[1].Z, cmpk(a[2].Z)), "wrong-verdict") })
+		func(a, res, aft []Val) []hit {
+			return expectB(res[0], hasVal(a[0].amap(), a[1].Z, cmpk(a[2].Z)), "wrong-verdict")
+		})
 	reg("AllKeyInMap", "m,t", 1, func(c *cx) []Val { return r1(VB(collection.AllKeyInMap(c.M(0), c.S(1)...))) },
 		func(a, res, aft []Val) []hit { return expectB(res[0], allKey(a[0].amap(), a[1].L), "wrong-verdict") })
 	reg("AllValueInMap", "m,t,k", 1, func(c *cx) []Val { return r1(VB(collection.AllValueInMap(c.M(0), c.S(1), cmpk(c.Z(2))))) },
-		func(a, res, aft []Val) []hit { return expectB(res[0], allVal(a[0].amap(), a[1].L, cmpk(a[2].Z)), "wrong-verdict") })
+		func(a, res, aft []Val) []hit {
+			return expectB(res[0], allVal(a[0].amap(), a[1].L, cmpk(a[2].Z)), "wrong-verdict")
+		})
 	reg("AnyKeyInMap", "m,t", 1, func(c *cx) []Val { return r1(VB(collection.AnyKeyInMap(c.M(0), c.S(1)...))) },
 		func(a, res, aft []Val) []hit { return expectB(res[0], anyKey(a[0].amap(), a[1].L), "wrong-verdict") })
 	reg("AnyValueInMap", "m,t,k", 1, func(c *cx) []Val { return r1(VB(collection.AnyValueInMap(c.M(0), c.S(1), cmpk(c.Z(2))))) },
-		func(a, res, aft []Val) []hit { return expectB(res[0], anyVal(a[0].amap(), a[1].L, cmpk(a[2].Z)), "wrong-verdict") })
+		func(a, res, aft []Val) []hit {
+			return expectB(res[0], anyVal(a[0].amap(), a[1].L, cmpk(a[2].Z)), "wrong-verdict")
+		})
 	reg("AllKeyInMaps", "mm,t", 1, func(c *cx) []Val { return r1(VB(collection.AllKeyInMaps(c.MM(0), c.S(1)...))) },
 		func(a, res, aft []Val) []hit {
 			return expectB(res[0], every(a[0].maps(), func(m amap) bool { return allKey(m, a[1].L) }), "wrong-verdict")
